@@ -144,7 +144,10 @@ class Source:
         wrappers = []
         found = None
         for step_no, step in enumerate(path):
-            kw, _, name = step.partition(' ')
+            if step.startswith('impl'):
+                kw, name = 'impl', step[4:]
+            else:
+                kw, _, name = step.partition(' ')
             name = ' '.join(name.split())
             nth = 0
             m = re.match(r'^(.*)#(\d+)$', name)
@@ -155,7 +158,7 @@ class Source:
                 if k != kw:
                     continue
                 if kw == 'impl':
-                    if _norm_header(nm) == _norm_header('impl ' + name):
+                    if _norm_header(nm) == _norm_header('impl' + name):
                         hits.append(idx)
                 elif nm == name:
                     hits.append(idx)
@@ -175,6 +178,10 @@ class Source:
                 wrappers.append((start, kwi, j, end))
                 lo, hi = j + 1, end
         return found, wrappers
+
+
+def _step_name(p):
+    return p[4:].strip() if p.startswith('impl') else p.split(' ', 1)[1]
 
 
 def _norm_header(h):
@@ -289,6 +296,10 @@ class FnSplicer:
             self.segs.insert(pos, '\n    opens_invariants ' + spec['opens_invariants'] + '\n', tag + '/kw', order=order)
         if not has_body:
             return
+        if 'let-chain-last' in (spec.get('rewrites') or []):
+            self._let_chain_last(body_open, body_close)
+        if 'bool-or-assign' in (spec.get('rewrites') or []):
+            self._bool_or_assign(body_open, body_close)
         # --- body: nested fns, loops, closures ---------------------------------
         nested = {}  # name -> (start,kwi,end)
         excl = []
@@ -403,6 +414,64 @@ class FnSplicer:
             if int(k) >= len(closures):
                 raise ExtractError('lost anchor: closure #%s of %s (found %d closures)' % (k, tag, len(closures)))
 
+    def _let_chain_last(self, body_open, body_close):
+        """Rule 'let-chain-last': `if A && let P = E { B }` (the `let` is the LAST conjunct and the
+        `if` has no `else`) -> `if A { if let P = E { B } }`.  Same evaluation order, same scopes."""
+        toks = self.src.toks
+        i = body_open + 1
+        while i < body_close:
+            t = toks[i]
+            if t.text == '&' and toks[i + 1].text == '&' and toks[i + 1].start == t.end \
+                    and toks[i + 2].kind == 'ident' and toks[i + 2].text == 'let':
+                # find `=` then the block `{` at depth 0
+                j = i + 3
+                while not (toks[j].kind == 'punct' and toks[j].text == '='):
+                    if toks[j].text in OPEN:
+                        j = match_close(toks, j)
+                    j += 1
+                k = j + 1
+                while not (toks[k].kind == 'punct' and toks[k].text == '{'):
+                    if toks[k].text in ('(', '['):
+                        k = match_close(toks, k)
+                    if toks[k].text == '&' and toks[k + 1].text == '&' and toks[k + 1].start == toks[k].end:
+                        raise ExtractError('let-chain-last: the let conjunct is not the last one')
+                    k += 1
+                bclose = match_close(toks, k)
+                if toks[bclose + 1].kind == 'ident' and toks[bclose + 1].text == 'else':
+                    raise ExtractError('let-chain-last: the if has an else branch')
+                self.segs.rewrite(t.start, toks[i + 1].end, '{ if', 'let-chain-last')
+                self.segs.insert(toks[bclose].end, ' }', 'let-chain-last/close')
+                self.counts['let-chain-last'] = self.counts.get('let-chain-last', 0) + 1
+                i = k
+            i += 1
+
+    def _bool_or_assign(self, body_open, body_close):
+        """Rule 'bool-or-assign': `X |= E;` -> `{ let verif_rhs = E; X = X || verif_rhs; }`
+        (Verus has no non-short-circuit `|` on bool; E is still evaluated exactly once and
+        before the store; the result only type-checks when X is bool)."""
+        toks = self.src.toks
+        text = self.src.text
+        i = body_open + 1
+        while i < body_close:
+            t = toks[i]
+            if t.text == '|' and toks[i + 1].text == '=' and toks[i + 1].start == t.end and toks[i - 1].end <= t.start:
+                # statement start
+                j = i - 1
+                while not (toks[j].kind == 'punct' and toks[j].text in (';', '{', '}')):
+                    j -= 1
+                lhs_a, lhs_b = toks[j + 1].start, toks[i - 1].end
+                lhs = text[lhs_a:lhs_b]
+                k = i + 2
+                while not (toks[k].kind == 'punct' and toks[k].text == ';'):
+                    if toks[k].text in OPEN:
+                        k = match_close(toks, k)
+                    k += 1
+                self.segs.rewrite(lhs_a, toks[i + 1].end, '{ let verif_rhs =', 'bool-or-assign')
+                self.segs.rewrite(toks[k].start, toks[k].end, '; %s = %s || verif_rhs; }' % (lhs, lhs), 'bool-or-assign')
+                self.counts['bool-or-assign'] = self.counts.get('bool-or-assign', 0) + 1
+                i = k
+            i += 1
+
     def _closure(self, k, c, cspec, tag):
         toks = self.src.toks
         text = self.src.text
@@ -485,7 +554,7 @@ class FnSplicer:
         self.segs.insert(toks[b1].end, ' }', ctag + '/wrap')
 
 
-def _attr_edits(src, segs, start, kwi, counts):
+def _attr_edits(src, segs, start, kwi, counts, drop_all_derives=False):
     """Drop attribute macros of crates unavailable in a single-file build."""
     toks = src.toks
     i = start
@@ -513,7 +582,7 @@ def _attr_edits(src, segs, start, kwi, counts):
                         j += 1
                     if cur:
                         names.append(cur)
-                    keep = [''.join(t.text for t in nm) for nm in names if nm[-1].text not in DROP_DERIVES]
+                    keep = [''.join(t.text for t in nm) for nm in names if nm[-1].text not in DROP_DERIVES and not drop_all_derives]
                     if len(keep) != len(names):
                         newt = ('#[derive(' + ', '.join(keep) + ')]') if keep else ''
                         segs.rewrite(toks[i].start, toks[e].end, newt, 'drop-derive')
@@ -571,7 +640,7 @@ class Extractor:
         kind = toks[kwi].text
         name = ' / '.join(path)
         if not keep_attrs:
-            _attr_edits(src, segs, start, kwi, self.counts)
+            _attr_edits(src, segs, start, kwi, self.counts, bool((spec or {}).get('drop_derives')))
         if kind in ('enum', 'struct'):
             _inner_attr_edits(src, segs, kwi, end, self.counts)
         spec = spec or {}
@@ -583,8 +652,8 @@ class Extractor:
                 segs.insert(toks[m].start, spec['vis'] + ' ', name + '/vis', order=9)
                 self.counts['widen-visibility'] = self.counts.get('widen-visibility', 0) + 1
         if kind == 'fn':
-            FnSplicer(src, segs, rel + '::' + '::'.join(p.split(' ', 1)[1] for p in path), self.counts).splice(start, kwi, end, spec)
-        elif kind == 'trait' and spec.get('methods'):
+            FnSplicer(src, segs, rel + '::' + '::'.join(_step_name(p) for p in path), self.counts).splice(start, kwi, end, spec)
+        elif kind in ('trait', 'impl') and spec.get('methods'):
             # spec for trait method declarations
             bopen = kwi
             while toks[bopen].text != '{':
